@@ -107,7 +107,7 @@ class History:
         return out[first:last] if last > first else []
 
     def lastInvalidations(self, n):
-        ts = self.txns[len(self.txns) - n:] if n > 0 else []
+        ts = self.txns[max(0, len(self.txns) - n):] if n > 0 else []
         return [(t['tid'], [r[0] for r in t['recs']]) for t in ts]
 
     def oids(self):
